@@ -8,6 +8,10 @@
      "cx"    complex scalar answers       graders F, N
      "arr"   vector and matrix answers    grader M
      "inf"   infinities                   graders F, N with allow_inf
+     "fine"  tolerances with three and more decimals, very large ones, and the spellings a percentage string may
+             have, with deviations at 1/2 ... 2 times the tolerance itself      graders F, M, N
+     "cans"  constant answers ('2', '2*pi/pi') in graders that have a variable: the student's formula uses the
+             variable and agrees with the answer on part of the scripted samples only      graders F, M
      "rw"    answer trees and their rewrites (commutation, distribution, +0, *1, ...) with and without an offset
    Level 1 = quick bounds, 2 = thorough bounds.
    Two-level enumeration: Init picks a seed (grader, tolerance, samples, failable_evals), Next picks the case. *)
@@ -110,8 +114,9 @@ FormsInf(n) == ConstForms(n, {"same", "neg", "abs", "sq"}, RZ) \cup ParamForms(n
                \cup ParamForms(n, "const", {Inf(1), Inf(-1), R(1, 1)})
 
 (* ---- seeds *)
-SeedRec(part, g, sub, tol, nf) == [kind |-> "seed", part |-> part, grader |-> g, sub |-> sub, tol |-> tol,
-                                   n |-> nf[1], failable |-> nf[2], credit |-> CreditOf(nf[1], nf[2])]
+SeedRecA(part, g, sub, tol, nf, ans) == [kind |-> "seed", part |-> part, grader |-> g, sub |-> sub, tol |-> tol, ans |-> ans,
+                                         n |-> nf[1], failable |-> nf[2], credit |-> CreditOf(nf[1], nf[2])]
+SeedRec(part, g, sub, tol, nf) == SeedRecA(part, g, sub, tol, nf, IdAns)
 N1 == {<<1, 0>>}
 SeedsReal == {SeedRec("real", "F", "s", t, nf) : t \in TolsReal, nf \in NF}
              \cup {SeedRec("real", "M", "s", t, nf) : t \in {AbsTol(Q(1, 2)), PctTol(I(50))}, nf \in NFsmall}
@@ -124,7 +129,47 @@ SeedsArr == {SeedRec("arr", "M", "mat", t, nf) : t \in TolsArr, nf \in NFsmall}
 SeedsInf == {SeedRec("inf", "F", "s", t, nf) : t \in TolsInf, nf \in {<<1, 0>>, <<2, 0>>, <<2, 1>>}}
             \cup {SeedRec("inf", "N", "s", t, nf) : t \in TolsInf, nf \in N1}
 SeedsRw == {SeedRec("rw", "F", "s", t, nf) : t \in TolsRw, nf \in (IF Level = 1 THEN {<<2, 0>>, <<3, 1>>} ELSE {<<1, 0>>, <<3, 1>>, <<4, 3>>})}
-Seeds == (IF "real" \in Parts THEN SeedsReal ELSE {}) \cup (IF "cx" \in Parts THEN SeedsCx ELSE {})
+(* ---- part "fine": the tolerance option must be applied as written.  sp is the spelling the adapter uses for the option
+   ("plain" 0.004%, "sci" 4e-3%, "padded" blanks around, "zeros" 00.0040%, "int"/"float" for numbers); the
+   specification reads the value only.  Deviations are multiples of the tolerance itself. *)
+Sp(t, sp) == [kind |-> t.kind, v |-> t.v, sp |-> sp]
+TolsFinePct == {Sp(PctTol(Q(1, 250)), "plain"), Sp(PctTol(Q(1, 250)), "sci"), Sp(PctTol(Q(7, 500)), "plain"),
+                Sp(PctTol(Q(2, 125)), "padded"), Sp(PctTol(Q(1, 8)), "plain"), Sp(PctTol(Q(1, 16)), "zeros"),
+                Sp(PctTol(Q(1, 1000)), "plain"), Sp(PctTol(I(250)), "plain"), Sp(PctTol(I(1000)), "sci")}
+               \cup (IF Level = 2 THEN {Sp(PctTol(Q(1, 2500)), "plain"), Sp(PctTol(Q(2469, 200)), "plain"), Sp(PctTol(Q(3, 8)), "padded"),
+                                        Sp(PctTol(Q(7, 500)), "zeros"), Sp(PctTol(Q(1, 40)), "sci"), Sp(PctTol(I(5)), "float")}
+                     ELSE {})
+TolsFineAbs == {Sp(AbsTol(Q(1, 250)), "plain"), Sp(AbsTol(Q(1, 80)), "plain")}
+               \cup (IF Level = 2 THEN {Sp(AbsTol(Q(7, 500)), "sci"), Sp(AbsTol(Q(5, 2)), "plain")} ELSE {})
+TolsFineAbsScalar == {Sp(AbsTol(Q(1, 100000)), "sci"), Sp(AbsTol(I(1000)), "int"), Sp(AbsTol(I(1000)), "float")}
+FineFactors == {Q(1, 2), Q(6, 7), Q(49, 50), Q(51, 50), Q(9, 8), I(2)}
+SignedFine(t) == {QMul(t, f) : f \in FineFactors} \cup {Neg(QMul(t, f)) : f \in {Q(6, 7), Q(9, 8)}}
+UnitDelta(sub, q) == IF sub = "vec" THEN Vec(<<Zero, q>>) ELSE IF sub = "mat" THEN Mat(2, 2, <<Zero, q, Zero, Zero>>) ELSE Real(q)
+FormsFine(s) == IF s.tol.kind = "pct" THEN {FP("mul", Const(s.n, Real(e))) : e \in SignedFine(PctFactor(s.tol)) \cup {Zero}}
+                ELSE {FP("same", Const(s.n, RZ))} \cup {FP("add", Const(s.n, UnitDelta(s.sub, d))) : d \in SignedFine(s.tol.v)}
+XFine(sub) == IF sub = "vec" THEN {Vec(<<I(3), I(4)>>), Vec(<<I(-1), Q(1, 2)>>)}
+              ELSE IF sub = "mat" THEN {Mat(2, 2, <<I(3), Zero, Zero, I(4)>>), Mat(2, 2, <<I(1), I(2), I(2), I(-1)>>)}
+              ELSE {R(-2, 1), R(1, 2), R(4, 1)}
+SeedsFine == {SeedRec("fine", "F", "s", t, nf) : t \in TolsFinePct \cup TolsFineAbs \cup TolsFineAbsScalar, nf \in {<<1, 0>>, <<2, 0>>, <<3, 1>>}}
+             \cup {SeedRec("fine", "N", "s", t, nf) : t \in TolsFinePct \cup TolsFineAbs \cup TolsFineAbsScalar, nf \in N1}
+             \cup {SeedRec("fine", "M", sub, t, nf) : sub \in {"vec", "mat"}, t \in TolsFinePct \cup TolsFineAbs, nf \in {<<1, 0>>, <<2, 1>>}}
+
+(* ---- part "cans": constant answers.  The expected value is the same at every sample, the student's value is not:
+   all configured samples still count.  sp "pi" spells the constant 2 as 2*pi/pi (a constant expression). *)
+AnsCans == {ConstAns(R(2, 1), "lit"), ConstAns(R(2, 1), "pi"), ConstAns(R(-1, 2), "lit")}
+XCans == {R(2, 1), R(-2, 1), R(1, 1), R(-1, 2)}
+XCans3 == {R(2, 1), R(-2, 1), R(1, 1)}
+TolsCans == IF Level = 1 THEN {AbsTol(Zero), AbsTol(Q(1, 10)), PctTol(Q(1, 100))}
+            ELSE {AbsTol(Zero), AbsTol(Q(1, 10)), PctTol(I(10)), PctTol(Q(1, 100))}
+NFCans == IF Level = 1 THEN {<<2, 0>>, <<2, 1>>, <<3, 1>>, <<3, 3>>} ELSE {<<n, f>> : n \in 2..4, f \in 0..3}
+FormsCans(s) == LET k == s.ans.k IN
+                ConstForms(s.n, {"same", "abs", "neg"}, RZ) \cup ParamForms(s.n, "sgn", {k}) \cup ParamForms(s.n, "times", {k})
+                \cup ParamForms(s.n, "plus0", {k}) \cup ParamForms(s.n, "const", {k, VAdd(k, R(1, 20))})
+SeedsCans == {SeedRecA("cans", "F", "s", t, nf, a) : t \in TolsCans, nf \in NFCans, a \in AnsCans}
+             \cup {SeedRecA("cans", "M", "s", AbsTol(Q(1, 10)), nf, ConstAns(R(2, 1), "lit")) : nf \in NFCans}
+
+Seeds == (IF "real" \in Parts THEN SeedsReal ELSE {}) \cup (IF "fine" \in Parts THEN SeedsFine ELSE {})
+         \cup (IF "cans" \in Parts THEN SeedsCans ELSE {}) \cup (IF "cx" \in Parts THEN SeedsCx ELSE {})
          \cup (IF "arr" \in Parts THEN SeedsArr ELSE {}) \cup (IF "inf" \in Parts THEN SeedsInf ELSE {})
          \cup (IF "rw" \in Parts THEN SeedsRw ELSE {})
 
@@ -144,10 +189,14 @@ ScriptsOf(s) == CASE s.part = "real" -> Scripts(s.n, XReal, XReal3)
                   [] s.part = "arr" -> (IF s.sub = "mat" THEN Scripts(s.n, XMat, XMat3)
                                         ELSE IF s.sub = "vec" THEN Scripts(s.n, XVec, XVec3s) ELSE AllSeq(s.n, XVec3))
                   [] s.part = "inf" -> AllSeq(s.n, XInf)
+                  [] s.part = "fine" -> (IF s.n <= 2 THEN AllSeq(s.n, XFine(s.sub)) ELSE Pat3(XFine(s.sub)))
+                  [] s.part = "cans" -> Scripts(s.n, XCans, XCans3)
 FormsOf(s) == CASE s.part = "real" -> FormsReal(s.n)
                 [] s.part = "cx" -> FormsCx(s.n)
                 [] s.part = "arr" -> (IF s.sub = "mat" THEN FormsMat(s.n) ELSE IF s.sub = "vec" THEN FormsVec(s.n) ELSE FormsVec3(s.n))
                 [] s.part = "inf" -> FormsInf(s.n)
+                [] s.part = "fine" -> FormsFine(s)
+                [] s.part = "cans" -> FormsCans(s)
 
 (* ---- rewrite part: answer trees over x, y *)
 X == Var("x")
@@ -186,12 +235,12 @@ Init == c \in Seeds /\ out = "seed"
 \* NB: everything that mentions c' below sits inside "out' = ..." or a field access, so that TLC evaluates it as a
 \* value (with short-circuit \/ and CASE) and not as an action (where every disjunct is explored).
 NoPrediction == [robust |-> FALSE]
-CaseOracle(k) == IF (\A i \in 1..k.n : Defined(k.fp.form, k.xs[i], k.fp.par[i])) /\ (k.grader = "N" => k.fp.form # "addvar")
-                 THEN JudgeForm(k.xs, k.fp.form, k.fp.par, k.tol, k.n, k.failable, k.credit)
+CaseOracle(k) == IF (\A i \in 1..k.n : DefinedAns(k.ans, k.fp.form, k.xs[i], k.fp.par[i])) /\ (k.grader = "N" => k.fp.form # "addvar")
+                 THEN JudgeAns(k.ans, k.xs, k.fp.form, k.fp.par, k.tol, k.n, k.failable, k.credit)
                  ELSE NoPrediction
 CaseNext == /\ c.part # "rw"
             /\ c' \in [kind : {"case"}, part : {c.part}, grader : {c.grader}, sub : {c.sub}, tol : {c.tol}, n : {c.n},
-                       failable : {c.failable}, credit : {c.credit}, xs : ScriptsOf(c), fp : FormsOf(c)]
+                       failable : {c.failable}, credit : {c.credit}, ans : {c.ans}, xs : ScriptsOf(c), fp : FormsOf(c)]
             /\ out' = CaseOracle(c')
             /\ out'.robust
 
@@ -208,38 +257,47 @@ RwOracle(k) ==
           ELSE NoPrediction
 RwNext == /\ c.part = "rw"
           /\ c' \in [kind : {"case"}, part : {"rw"}, grader : {"F"}, sub : {"s"}, tol : {c.tol}, n : {c.n}, failable : {c.failable},
-                     credit : {c.credit}, tree : Trees, rw : [rule : Rules, pos : Positions], envs : EnvSeqs(c.n),
+                     credit : {c.credit}, ans : {c.ans}, tree : Trees, rw : [rule : Rules, pos : Positions], envs : EnvSeqs(c.n),
                      dev : DevsRw, style : Styles]
           /\ out' = RwOracle(c')
           /\ out'.robust
 Next == c.kind = "seed" /\ (CaseNext \/ RwNext)
 IsCase == c.kind = "case"
 IsForm == IsCase /\ c.part # "rw"
+\* cases on which the per-sample laws are evaluated through the general squared-norm definition: everything except
+\* arrays under the fine tolerances (their squares leave the integer range; the scale-invariance shortcut judges them)
+IsLawCase == IsForm /\ (c.part = "fine" => c.sub = "s")
 
 (* ---- laws, one invariant each *)
-Es == c.xs
+Es == [i \in 1..c.n |-> Expected(c.ans, c.xs[i])]
 Ss == [i \in 1..c.n |-> Student(c.fp.form, c.xs[i], c.fp.par[i])]
 LawOutDomain == IsCase => out.allowed # {} /\ out.allowed \subseteq {"accept", "reject"} /\ out.fails \in 0..c.n
                           /\ out.grades \subseteq {c.credit, Zero}
-InvZeroDeviation == IsForm => \A i \in 1..c.n : LawZeroDeviation(Es[i], c.tol)
+InvZeroDeviation == IsLawCase => \A i \in 1..c.n : LawZeroDeviation(Es[i], c.tol)
                               /\ (Ss[i] = Es[i] => Agrees(out.marg[i]))
 InvSameAccepted == IsForm /\ (\A i \in 1..c.n : Ss[i] = Es[i]) => out.allowed = {"accept"}
-InvTolMonotone == IsForm => \A i \in 1..c.n : LawTolMonotone(Es[i], Ss[i], c.tol)
+InvTolMonotone == IsLawCase => \A i \in 1..c.n : LawTolMonotone(Es[i], Ss[i], c.tol)
 \* (squares of deviations below 1/5000 would leave TLC's integer range: the law is checked on the others)
 SmallPair(e, s) == Linear(e, s) /\ ~IsInf(e) /\ ~IsInf(s) => QSub(RealPart(e), RealPart(s))[2] <= 5000
-InvRealAgrees == IsForm => \A i \in 1..c.n : SmallPair(Es[i], Ss[i]) => LawRealAgrees(Es[i], Ss[i], c.tol)
-InvAbsSymmetric == IsForm => \A i \in 1..c.n : LawAbsSymmetric(Es[i], Ss[i], c.tol)
-InvAbsTranslation == IsForm => \A i \in 1..c.n : LawAbsTranslation(Es[i], Ss[i], c.tol, Es[i])
-InvPctScale == IsForm => \A i \in 1..c.n : LawPctScale(Es[i], Ss[i], c.tol, Q(-3, 2))
-InvInfinity == IsForm => \A i \in 1..c.n : LawInfinity(Es[i], Ss[i], c.tol)
-InvNormBounds == IsForm => \A i \in 1..c.n : LawNormBounds(Es[i]) /\ LawNormBounds(Ss[i])
-InvMarginConsistent == IsForm => \A i \in 1..c.n : LawMarginConsistent(Es[i], Ss[i], c.tol)
+InvRealAgrees == IsLawCase /\ TolK(c.tol)[2] <= 10000 => \A i \in 1..c.n : SmallPair(Es[i], Ss[i]) => LawRealAgrees(Es[i], Ss[i], c.tol)
+InvAbsSymmetric == IsLawCase => \A i \in 1..c.n : LawAbsSymmetric(Es[i], Ss[i], c.tol)
+InvAbsTranslation == IsLawCase => \A i \in 1..c.n : LawAbsTranslation(Es[i], Ss[i], c.tol, Es[i])
+InvPctScale == IsLawCase => \A i \in 1..c.n : LawPctScale(Es[i], Ss[i], c.tol, Q(-3, 2))
+InvInfinity == IsLawCase => \A i \in 1..c.n : LawInfinity(Es[i], Ss[i], c.tol)
+InvNormBounds == IsLawCase /\ c.part # "fine" => \A i \in 1..c.n : LawNormBounds(Es[i]) /\ LawNormBounds(Ss[i])
+InvMarginConsistent == IsLawCase => \A i \in 1..c.n : LawMarginConsistent(Es[i], Ss[i], c.tol)
+InvOrderIrrelevant == IsForm => LawOrderIrrelevant(out.marg, c.n, c.failable, c.credit)
+\* a constant answer is judged over all samples: the failure count is the number of samples where the student differs
+InvConstAnswerAllSamples == IsLawCase /\ c.ans.form = "const"
+                              => out.fails = Cardinality({i \in 1..c.n : ~Within(c.ans.k, Ss[i], c.tol)})
+InvMulShortcut == IsLawCase /\ c.ans.form = "id" /\ c.fp.form = "mul" /\ c.tol.v[2] <= 100
+                    => \A i \in 1..c.n : RealPart(c.fp.par[i])[2] <= 100 => LawMulShortcut(c.xs[i], RealPart(c.fp.par[i]), c.tol)
 InvFailableMonotone == IsCase => LawFailableMonotone(out.fails, c.n, c.failable)
 InvAllMiss == IsCase => LawAllMiss(c.n, c.failable) /\ LawNoMiss(c.n, c.failable) /\ LawSingleSample(out.fails, c.failable)
 InvAllMissRejected == IsCase /\ out.fails = c.n /\ c.failable < c.n => out.allowed = {"reject"}
 InvVerdictCounts == IsCase /\ ~Ambiguous(out.fails, c.n, c.failable)
                       => ((out.allowed = {"accept"}) <=> (IF c.n = 1 THEN out.fails = 0 ELSE out.fails <= c.failable))
-InvSafeArith == IsForm /\ IsRealScalar(c.xs[1]) /\ ~IsInf(c.xs[1]) /\ IsRealScalar(Ss[1]) /\ ~IsInf(Ss[1])
+InvSafeArith == IsLawCase /\ IsRealScalar(c.xs[1]) /\ ~IsInf(c.xs[1]) /\ IsRealScalar(Ss[1]) /\ ~IsInf(Ss[1])
                   => LawSafeArith(RealPart(c.xs[1]), RealPart(Ss[1])) /\ LawSafeArith(RAbs(RealPart(c.xs[1])), RAbs(RealPart(Ss[1])))
 \* rewrite part: every rule keeps the value at every sample, and on a grid large enough for the degree
 InvRewriteKeepsValue == IsCase /\ c.part = "rw" =>
